@@ -428,11 +428,13 @@ impl<'a> History<'a> {
                 }
             }
             OP_PROPOSE_UPDATE => {
-                if self.notes.updates_from.contains(&a) {
+                // a member may send a second Update in the same epoch (plain re-key only): one of the two gives way in the commit
+                let second = self.notes.updates_from.contains(&a);
+                if second && (op[3] % 3 != 0 || self.w.parties[a].pending_identity.is_some()) {
                     self.stats.skipped_ops += 1;
                     return Ok(());
                 }
-                let with_identity = op[2] % 4 == 0;
+                let with_identity = op[2] % 4 == 0 && !second;
                 let suite = self.w.cfg.suite;
                 let party = &mut self.w.parties[a];
                 let ad = aad.clone();
